@@ -185,7 +185,7 @@ func gen(tier string, r *lib.Rand, emit func(string)) {
 	redbits, maxunsorted := []int{6, 10, 16, 24, 24, 32, 40}, 110
 	if tier == "thorough" {
 		maxlen, sampleFrom, num, den = 9, 8, 1, 12
-		nred, nalg, algstep, bits = 6000, 12, 7, []int{16, 32, 64, 128, 256}
+		nred, nalg, algstep, bits = 4000, 10, 7, []int{16, 32, 64, 128, 256}
 		redbits, maxunsorted = []int{6, 10, 16, 24, 40, 64, 96}, 200
 	}
 	e := func(c []*big.Int) { emit("optimize " + lib.HexList(c)) }
